@@ -7,7 +7,7 @@ CONSTANT MaxCache = 1
 CONSTANT MaxGet = 1
 CONSTANT Deletes = TRUE
 CONSTANT Split = TRUE
-CONSTANT MaxSteps = 9
+CONSTANT MaxSteps = 8
 SPECIFICATION Spec
 VIEW view
 INVARIANT SettledStable
